@@ -212,10 +212,14 @@ impl<D: DataMut> ReaderFrom for GGSWCompressed<D> {
         self.dsize = Dsize(reader.read_u32::<LittleEndian>()?);
         self.rank = Rank(reader.read_u32::<LittleEndian>()?);
         let seed_len: usize = reader.read_u32::<LittleEndian>()? as usize;
-        self.seed = vec![[0u8; 32]; seed_len];
-        for s in &mut self.seed {
-            reader.read_exact(s)?;
+        // Grow with the bytes actually present: a corrupted count must not trigger a huge up-front allocation.
+        let mut seed: Vec<[u8; 32]> = Vec::new();
+        for _ in 0..seed_len {
+            let mut s: [u8; 32] = [0u8; 32];
+            reader.read_exact(&mut s)?;
+            seed.push(s);
         }
+        self.seed = seed;
         self.data.read_from(reader)
     }
 }
